@@ -138,4 +138,13 @@ CHECKS = {
         "stages": [{"name": "known", "run": "TestKnown", "kind": "plain", "shards": 1, "timeout": 300},
                    sim_stage(40, 400, shrinktime="30s", timeout={"quick": 900, "thorough": 3600})],
     },
+    "C09": {
+        "pkg": "c09", "level": "exploration",
+        "rule": "cronsim: rapid generates 1..5 DAG files (schedule as string / list / start-stop-restart map; expressions from the standard 5-field grammar: *, ?, numbers, ranges, lists, steps, N/step, month and weekday names in either case, mixed day-of-month/day-of-week, plus parseable never-matching expressions such as '0 0 30 2 *'; invalid cron, non-YAML and wrongly typed files; suspended flags; .yml), a history per DAG (none / older run / run started in the first tick's minute / still running; runs that stay running for 0..5 ticks) and a tick script of 1..6 (thorough 12) segments of consecutive minutes starting at calendar anchors (Feb 28/29, month and year ends, ...) with gaps of minutes to a month, jumps to just before a schedule's next match, late / bunched ticks (wall clock lagging the logical tick), daemon restarts, and file events between segments (add / edit schedule by direct write or rename-into-place / delete / overwrite with garbage / toggle suspend). Every tick is executed by the real daemon objects (scheduler.New + real entry reader + real inotify watcher + real job guard) through the verif-tagged VerifRunTick against a recording fake of client.Client whose Start takes 300 us (as a process spawn does); watcher progress is awaited with a sentinel file. Oracle per tick and DAG, from an independent cron matcher (harness/cronmodel, cross-checked against the library as an oracle self-check that can only yield 'inconclusive'): exactly one start iff a start schedule matches AND not suspended AND not running AND the latest run did not start in or after that minute, otherwise none; stop iff a stop schedule matches and the DAG runs; restart iff a restart schedule matches; nothing for DAGs without a loadable definition; a DAG overwritten with garbage is don't-care until its next valid write or a daemon restart; several action kinds of one DAG in one minute are order-ambiguous and skipped. Non-trivial: (>=1 start issued AND >=1 start suppressed by the guard) OR a month/leap-day anchor crossed OR a file event between ticks. Distinct: hash of the case.",
+        "assumptions": ["process time zone UTC", "the real-time loop start() (timer arithmetic) is not executed; its tick sequencing is reproduced with nextTick", "the generator stays inside the expression grammar the loader accepts; what the loader rejects is C13's business", "suspended DAGs are judged on starts only"],
+        "stages": [
+            {"name": "matcher", "run": "TestMatcher", "kind": "rapid", "shards": {"quick": 4, "thorough": 16}, "checks": {"quick": 300, "thorough": 3000}, "timeout": {"quick": 300, "thorough": 1200}},
+            sim_stage(150, 3000, shrinktime="30s", env={"TZ": "UTC"}),
+        ],
+    },
 }
